@@ -154,7 +154,7 @@ def m_ptr_aligned(c, *a):
        r'|^<(?:str|std::string::String|String|Vec<.*>|BytesMut) as (?:std::ops::)?Index(?:Mut)?<(?:std::ops::)?RangeFull>>::index(?:_mut)?$'
        r'|^(?:std::ffi::)?CString::(as_bytes_with_nul|as_c_str)$'
        r'|^<\[.*; \d+\] as (?:AsRef|Borrow)<.*>>::\w+$')
-def m_deref_identity(c, p):
+def m_deref_identity(c, p, *_range_full):
     ip = c.ip
     v = ip.load(p.cell, p.path)
     # &&str / &Cow -> inner
